@@ -63,8 +63,12 @@ def explore_c20(rng, tier, res, deep=False):
         for i in range(n):
             res.evaluations += 1
             doc = doc_with_all_kinds(rng, rng.choice([1, 2, 3]))
-            kind = rng.choice(["valid"] * 5 + ["syntax", "type", "index", "name", "badjson", "badbytes", "deep", "mutant"])
+            kind = rng.choice(["valid"] * 5 + ["syntax", "type", "index", "name", "badjson", "badbytes", "deep", "mutant", "rootish", "rootish"])
             q = walk_query(rng, doc, g, filters=True) if rng.random() < 0.5 else g.query()
+            if kind == "rootish":
+                # the root node itself / every kind of whole document, empty and scalar ones included
+                doc = rng.choice([{}, [], "", 0, False, None, 0.0, "x", 1, True, [0], {"a": None}, [[]], [{}], -0.0, 1.5, "é😀"])
+                q = rng.choice(["$", "$", "$.*", "$..*", "$[?@]", "$[*]", "$[0]", "$['a']", "$[?@ == 0]", "$ "[:1]])
             doc_bytes = json.dumps(doc, ensure_ascii=rng.random() < 0.5).encode("utf8")
             if kind == "syntax":
                 q = rng.choice(["$[", "$.a b", "$[?@.a==01]", "$[?@.a &&]", "$..", "$['\\x']", "$[1:2:3:4]"])
